@@ -22,6 +22,7 @@ let parse_op s =
   let h = nat_of_int (int_of_string (String.sub s 1 (String.length s - 1))) in
   match s.[0] with
   | 'T' -> Take h | 'G' -> Get h | 'D' -> Dup h | 'C' -> Clone h | 'X' -> Drop h
+  | 'E' | 'N' -> DupFail h   (* the dup(2) call fails with EMFILE / ENFILE: the model does not distinguish them *)
   | _ -> failwith "op"
 
 let parse_prog s =
@@ -46,20 +47,33 @@ let show_res = function
   | RTake o -> show_opt "T" "none" o
   | RGet o -> show_opt "G" "none" o
   | RDup o -> show_opt "D" "gone" o
+  | RDupErr -> "D=err"
   | RClone -> "C"
   | RDrop -> "X"
+  | RSkipped -> "S"
   | RInvalid -> "INVALID"
 
 let show_ev = function
-  | EvDupSys (t, s, n) -> Printf.sprintf "dup(%d)=%d@%d" (int_of_z s) (int_of_z n) (int_of_nat t)
-  | EvClose (t, fd) -> Printf.sprintf "close(%d)@%d" (int_of_z fd) (int_of_nat t)
+  | EvDupSys (t, _, s, n) -> Printf.sprintf "dup(%d)=%d@%d" (int_of_z s) (int_of_z n) (int_of_nat t)
+  | EvDupFail (t, _, s) -> Printf.sprintf "dup(%d)=ERR@%d" (int_of_z s) (int_of_nat t)
+  | EvClose (t, _, fd) -> Printf.sprintf "close(%d)@%d" (int_of_z fd) (int_of_nat t)
   | _ -> "?"
 
 let join sep l = if l = [] then "-" else String.concat sep l
 
 let show_point = function
   | PGetLoad -> "get.load" | PTakeLoad -> "take.load" | PTakeCas -> "take.cas" | PHandleDrop -> "handle.drop"
-  | PDupSys -> "dup.syscall" | PCloneInc -> "clone.inc" | PDropClose -> "drop.close"
+  | PDupSys -> "dup.syscall" | PCloneInc -> "clone.inc" | PDropClose -> "drop.close" | PSkip -> "skip"
+
+(* a system call inside the merged sequence: "<thread>:dup(7)=8", "<thread>:close(7)" *)
+let show_obs = function
+  | OPoint (t, i, p) -> Printf.sprintf "%d.%d:%s" (int_of_nat t) (int_of_nat i) (show_point p)
+  | OSys e ->
+    (match e with
+     | EvDupSys (t, _, s, n) -> Printf.sprintf "%d:dup(%d)=%d" (int_of_nat t) (int_of_z s) (int_of_z n)
+     | EvDupFail (t, _, s) -> Printf.sprintf "%d:dup(%d)=ERR" (int_of_nat t) (int_of_z s)
+     | EvClose (t, _, fd) -> Printf.sprintf "%d:close(%d)" (int_of_nat t) (int_of_z fd)
+     | _ -> "?")
 
 let run_line line =
   let (fd0, progs, sched) = parse_line line in
@@ -67,7 +81,7 @@ let run_line line =
   String.concat "|" (List.map (fun l -> join "," (List.map show_res l)) rs)
   ^ ";" ^ join "," (List.map show_ev sys)
   ^ ";" ^ join "," (List.map (fun z -> string_of_int (int_of_z z)) opn)
-  ^ ";" ^ join "," (List.map (fun ((t, i), p) -> Printf.sprintf "%d.%d:%s" (int_of_nat t) (int_of_nat i) (show_point p)) pts)
+  ^ ";" ^ join "," (List.map show_obs pts)
 
 let encode_line line =
   let (fd0, progs, sched) = parse_line line in
